@@ -41,6 +41,16 @@ CLAIMED = {
    design_ref='DESIGN.md section 4, C15',
    note='Trusted: Coq kernel + vm_compute, stdlib real axioms (+ Classical_Prop.classic through Flocq for the float section), the hand-written model (bit-exact correspondence; Cylinder3D::new passes through libm so its transform is read back through the hook), IEEE-754 conformance of rustc. Not proved: that reported hits are surface points (C02) and float vs exact evaluation; both sampled by the oracle (16 u times the magnitudes entering the hit; for triangles times the conditioning of the Moller-Trumbore quotient). Disk3D::bounds (unimplemented!) and DistantSource3D::bounds (panics by design) are outside the property.',
    technique='Coq proof over R (min/max lemmas, sign split on coefficients + lra/nra) + generic order section instantiated on Flocq + bit-exact correspondence + exact-rational oracle'),
+ 'C02': dict(category='proof',
+   text='[flat primitives] Theorems over the reals about the Gallina model of triangle3d.rs/plane3d.rs/disk3d.rs/distant_source3d.rs: a reported triangle hit is o+t d with t>100eps and equals v0+u e1+v e2 with u,v>=0, u+v<=1 (the pinned code without the u+v test is refuted by a witness); plane: t>=0 (t=0 accepted, recorded) and n.p=D; disk: in the plane, r_in<=rho<=r, polar angle in [0,phi_max], for every disk the constructor can produce; with an attached transform satisfying C06\'s invariant the world hit is the image of a point of the local disk and lies on the world ray at a parameter >=0; distant source: reported <=> cos(angle) >= cos(alpha/2). Model executed bit-for-bit against the crate (debug and release; phi decisions only outside a 1e-9 libm margin); exact-rational oracle re-checks membership on the implementation outputs.',
+   design_ref='DESIGN.md section 4, C02', note='Trusted: Coq kernel + vm_compute, the 4 stdlib real/classical axioms, the hand-written model (bit-exact correspondence), IEEE-754 conformance. Not proved: float vs exact evaluation (sampled at 1e-9 x condition number). Hook: Disk3D::verif_fields. f32 not exercised.',
+   technique='Coq proof over R (field/nsatz, polar-angle lemmas) + bit-exact model/code correspondence + exact-rational oracle'),
+ 'C03': dict(category='proof',
+   text='[flat primitives] Exact-tier theorems: a crossing inside the closed triangle with t>100eps and |a|>=100eps is reported with exactly that point and (u,v); crossings outside, behind or in the parallel band are not; plane and disk: reported <=> |n.d|>=eps, t>=0, inside annulus and sector (the sector test is proved to be the polar-angle range); through a transform; distant source <=> cone. The 1e-6 band of the property is sampled by the exact-rational oracle.',
+   design_ref='DESIGN.md section 4, C03', note='Trusted: Coq kernel + vm_compute, the 4 stdlib real/classical axioms, the hand-written model (bit-exact correspondence), IEEE-754 conformance. Not proved: float vs exact evaluation (sampled at 1e-9 x condition number). Hook: Disk3D::verif_fields. f32 not exercised.', technique='Coq proof over R (field/nsatz, polar-angle lemmas) + bit-exact model/code correspondence + exact-rational oracle'),
+ 'C13': dict(category='proof',
+   text='[flat primitives] Exact-tier theorems: get_side returns (n,Front)/(−n,Back) by the sign of n.d, so the normal faces the ray and side and normal flip from the other side; IntersectionInfo::new: unit normal parallel to dpdv x dpdu, perpendicular to both tangents; triangle: tangents are edges, Front = side of the right-hand-rule normal; disk: Front = side of the declared normal, tangents in the plane; transformed data: (M^-T n).(M t)=n.t, (M^-T n).d_world = n.d_local, unit for rigid M; distant source per the code. Known findings: NaN tangents at a disk centre / distant-source axis; zero normal for coplanar rays on large triangles.',
+   design_ref='DESIGN.md section 4, C13', note='Trusted: Coq kernel + vm_compute, the 4 stdlib real/classical axioms, the hand-written model (bit-exact correspondence), IEEE-754 conformance. Not proved: float vs exact evaluation (sampled at 1e-9 x condition number). Hook: Disk3D::verif_fields. f32 not exercised.', technique='Coq proof over R (field/nsatz, polar-angle lemmas) + bit-exact model/code correspondence + exact-rational oracle'),
 }
 NOT_YET = 'check not built yet in this round (machinery under construction); see DESIGN.md section 4 for the planned Coq model and theorems'
 
